@@ -30,6 +30,7 @@ from deepproto.proto.resource.v1.resource_pb2 import Resource
 from deepproto.proto.tracepoint.v1.tracepoint_pb2 import MetricType
 
 from .grpc_service import GRPCService  # noqa: F401
+from .. import logging
 from ..api.tracepoint.tracepoint_config import LabelExpression, MetricDefinition
 from ..api.tracepoint.trigger import build_trigger, Trigger
 
@@ -122,6 +123,10 @@ def convert_response(response) -> List[Trigger]:
         # from the incoming tracepoints create a Trigger with actions
         trigger = build_trigger(r.ID, r.path, r.line_number, dict(r.args), [w for w in r.watches],
                                 __convert_metric_definition(r.metrics))
+        if trigger is None:
+            # this tracepoint cannot be interpreted (e.g. an unknown stage); the others are still installed
+            logging.warning("Cannot interpret tracepoint %s, it is ignored", r.ID)
+            continue
         location_id = trigger.id
         # if we already have a trigger for this location then merge the new actions into it
         if location_id in all_triggers:
